@@ -2,3 +2,4 @@ import FeemsProofs.Prelude
 import FeemsProofs.Lemmas.KVLemmas
 import FeemsProofs.C18
 import FeemsProofs.C19
+import FeemsProofs.C17
